@@ -1,4 +1,6 @@
 import SigHook.Model.Builtin
+import SigHook.Gen.Consts
+import SigHook.Gen.Platform
 import SigHook.Gen.Orderings
 /-!
 # C15 — Flags and conditional shutdown do exactly what the flag state dictates
@@ -200,5 +202,14 @@ theorem C15_exit_code_range (st : Int) : exitCode st < 256 := by
 /-! ## Tie: the orderings of the flag actions (informational: SeqCst in the source) -/
 theorem C15_flag_orderings_seqcst :
     ∀ r ∈ Gen.orderings, r.1 = "src/flag.rs" → ∀ o ∈ r.2.2.2.2, o = Ord.seqCst := by decide
+
+
+/-- **C15.deliveries_do_not_nest** — tie to the source (regenerated): the library installs its
+handler without `SA_NODEFER` and without `SA_RESETHAND`, so the signal stays blocked while its
+actions run and stays handled afterwards: deliveries of one signal are the *sequence* the model
+assumes (`run`), never nested inside one another between two actions. -/
+theorem C15_deliveries_do_not_nest :
+    Gen.libFlags &&& Gen.SA_NODEFER.toNat = 0 ∧ Gen.libFlags &&& Gen.SA_RESETHAND.toNat = 0 ∧
+    Gen.SA_NODEFER ≠ 0 ∧ Gen.SA_RESETHAND ≠ 0 := by decide
 
 end SigHook.Builtin
